@@ -30,6 +30,7 @@ type Parser struct {
 	args        []Term
 
 	buf tokenRingBuffer
+	pos int // number of tokens taken so far
 }
 
 // ParsedVariable is a set of information regarding a variable in a parsed term.
@@ -105,10 +106,12 @@ func (p *Parser) next() (Token, error) {
 		t, err := p.lexer.Token()
 		p.buf.put(t, err)
 	}
+	p.pos++
 	return p.buf.get()
 }
 
 func (p *Parser) backup() {
+	p.pos--
 	p.buf.backup()
 }
 
@@ -349,8 +352,12 @@ func (p *Parser) term(maxPriority Integer) (Term, error) {
 	switch op, err := p.prefix(maxPriority); err {
 	case nil:
 		_, rbp := op.bindingPriorities()
+		pos := p.pos
 		t, err := p.term(rbp)
 		if err != nil {
+			if p.pos != pos { // The operand took tokens that can't be given back: it's not the operator as an atom.
+				return nil, err
+			}
 			p.backup()
 			return p.term0(maxPriority)
 		}
